@@ -82,23 +82,27 @@ def custom(ctx):
     cases, stats = ctx.run_harness(["c08", "--tier", ctx.tier, "--seed", str(ctx.seed)])
     ctx.stats.extend(stats)
     account(cases)
-    ctx.extra["model_comparison"] = ("C08.lex, C08.cond, C08.defscan and C08.textscan requests are compared with the Lean model (TokenStream bookkeeping, "
-                                     "ConditionChain over trees of included files, Macro::parse + apply_macros with locations, with and without apply_defined); "
+    ctx.extra["model_comparison"] = ("C08.lex, C08.cond, C08.defscan, C08.textscan and C08.pipeprops requests are compared with the Lean model (TokenStream bookkeeping, "
+                                     "ConditionChain over trees of included files, Macro::parse + apply_macros with locations, with and without apply_defined, "
+                                     "duplicate-property check + state loop of parse_pipeline / parse_static_sampler); "
                                      "C08.compile requests are the property's own oracle on the real compiler "
                                      "(worker survival, rendered diagnostics, time budget) and have no model prediction")
 
 
 SPEC = {
     "id": "C08",
-    "gens": ["PanicSites", "ArithSites"],
-    "lean_modules": ["RsslVerif.Thm.C08", "RsslVerif.Model.DefinedLoc", "RsslVerif.Lemmas.DefinedLoc", "RsslVerif.Lemmas.ArithClasses"],
+    "gens": ["PanicSites", "ArithSites", "PipelineProps"],
+    "lean_modules": ["RsslVerif.Thm.C08", "RsslVerif.Model.DefinedLoc", "RsslVerif.Lemmas.DefinedLoc", "RsslVerif.Lemmas.ArithClasses",
+                     "RsslVerif.Model.PipelineProps", "RsslVerif.Lemmas.PipelineProps", "RsslVerif.Lemmas.PanicClasses"],
     "theorems": [T + n for n in [
         "panic_sites_classified", "parser_loops_as_modelled", "list_uses_reviewed", "parse_list_progress",
         "parse_list_fuel_irrelevant", "parse_multiple_progress", "parse_multiple_diverges_without_progress",
         "parse_optional_total", "root_loop_progress", "lex_shape_as_modelled", "lex_progress",
         "cond_shape_as_modelled", "cond_chain_total", "cond_include_isolated", "cond_depth_bounded", "macro_guard_as_modelled",
         "stage_errors_rendered", "arith_sites_classified", "defined_shape_as_modelled", "defined_location_safe",
-        "defined_location_needs_plain_rescan", "defined_indices_in_range", "scan_output_has_no_concat"]],
+        "defined_location_needs_plain_rescan", "defined_indices_in_range", "scan_output_has_no_concat",
+        "pipeline_duplicates_as_modelled", "pipeline_duplicate_reported_iff", "pipeline_state_asserts_unreachable",
+        "pipeline_located_compare_reaches_asserts", "panic_class_reasons_hold"]],
     "harness": "c08",
     "custom": custom,
     "finding_key": finding_key,
@@ -113,16 +117,24 @@ SPEC = {
             "300-parameter macros, directives inside macro arguments, include guards, #pragma once, missing and cyclic includes, "
             "stray # forms, line splices anywhere) and their token mutations, one template per syntactic category of the front "
             "end (354 categories / 707 variants, each run once per check, plus random combinations and their mutations), typed "
-            "constant expressions in every constant context, the repository's own inputs under tests/ and byte/line/token "
-            "mutations of them; every input on the 4 targets (2 for the preprocessor / constant / single-category streams in "
-            "quick) with the pipeline mode {all, named, no-pipeline}, the layout-validation flag and an optional command-line "
+            "constant expressions in every constant context, a sweep of property blocks / attributes / redefinitions (3987 variants, "
+            "each run once per check: every pipeline, blend-state and static-sampler property repeated with the same / another / a "
+            "wrong-kind value, adjacent / apart / three times / before the stage assignments, on graphics, compute and mesh "
+            "pipelines; every property with 34 wrong-kind and out-of-range values; unknown and mis-cased names; every function, "
+            "statement and global attribute repeated, mis-spelled and with wrong arguments on every host; every ordered pair of 19 "
+            "entity kinds declared under one name at file scope, inside and across namespaces, and over the prelude's names; 80 "
+            "duplicates inside one scope) plus random blocks (random subsets, orders, repeats, values, stage combinations), the repository's own inputs under tests/ and byte/line/token "
+            "mutations of them; every input on the 4 targets (2 for the preprocessor / constant / single-category streams, 1 for the "
+            "property sweep, in quick) with the pipeline mode {all, named, no-pipeline}, the layout-validation flag and an optional command-line "
             "define rotating (quick) or crossed (thorough); worker death, panic, timeout, an empty diagnostic or an exceeded "
             "budget is a failure, keyed by panic site or by (signal, stage), minimised over files, defines, lines and bytes; "
             "model-compared side streams: C08.lex (TokenStream bookkeeping), C08.cond (ConditionChain: every directive sequence up to "
             "length 4, random walks, and random trees of in-memory files included up to 3 deep, with second #else / #elif after "
             "#else, blocks that cross a file boundary, directive lines that start with a number), C08.defscan (Macro::parse + "
             "apply_macros with apply_defined on the real lexer's located tokens) and C08.textscan (the same definitions used from "
-            "ordinary text whose invocations are broken over several lines); non-trivial = the input compiled through every stage",
+            "ordinary text whose invocations are broken over several lines) and C08.pipeprops (Pipeline / StaticSampler blocks with valid "
+            "values, 168 hand-picked + 400 random: duplicate reported at which column / other diagnostic at which column / compiled / "
+            "which assert, against the model of the duplicate check + state loop); non-trivial = the input compiled through every stage",
     "level_text": "Proof of the logic, test of the runtime.  Proved for all inputs: every explicit panic site in the current sources "
                   "is a reviewed, classified one, and so is every unchecked + - *, `as` cast, index and slice in the preprocessor / "
                   "lexer core (two regenerated inventories; a new site or changed operands break the obligation); the parser's list "
@@ -135,7 +147,12 @@ SPEC = {
                   "the condition values; the location subtraction of the `defined` operation cannot "
                   "overflow for any macro table, any ## oracle and any command line of one lexer run, because the two recursive "
                   "scans run without apply_defined (flags re-extracted from the source; with the caller's flag there is a proved "
-                  "counterexample), its two index computations stay in range, and a completed scan leaves no Concat token.  "
+                  "counterexample), its two index computations stay in range, and a completed scan leaves no Concat token; for "
+                  "every property block (any names, any length, any table of arms) the modelled parse_pipeline reports a duplicate "
+                  "iff a name occurs twice and never reaches one of its four `not set before` asserts, because the duplicate check "
+                  "compares the property names as text (comparison and arm tables re-extracted from the source; with the "
+                  "Located<String> comparison there is a proved counterexample for each assert), and the class reasons of those "
+                  "assert sites name that fact, so the inventory obligation fails when the fact is false.  "
                   "Not provable and therefore observed: stack depth, allocation, wall-clock time and the unmodelled 95 % of the "
                   "compiler — supervised worker processes run the real compile() on generated and mutated inputs (86 % line "
                   "coverage of /repo in a quick run); every crash found is listed by site/stage in known_findings.jsonl.",
@@ -161,6 +178,15 @@ SPEC = {
         "C08.textscan correspondence on the real lexer's tokens; the ## operation is an abstract oracle (assumed not to produce Token::Concat, "
         "which the lexer cannot); command-line tokens are assumed to come from one lexer run (monotone locations: C10 spans_tile, "
         "C08.lex oracle)",
+        "Model/PipelineProps.lean mirrors the duplicate-property loop and the state loop of parse_pipeline (and the walk of "
+        "parse_static_sampler) by hand, property values abstracted: tied to the code by tools/gens/c08.py PipelineProps (what the "
+        "two duplicate checks compare: text / Located / unrecognised; 10 regex facts: all-pairs loop, check precedes both "
+        "property loops, state loop walks the remaining properties, each asserted flag / slot written by its own arm only; the "
+        "name tables of the stage, state, blend and sampler arms with their `gated on compute` and `asserts` marks) and by the "
+        "C08.pipeprops correspondence; add_stage and the stage validation are not modelled (blocks with other stage sets are "
+        "`unsupported` unless the duplicate check answers first); that a class reason carrying a `[fact: ..]` marker is listed in "
+        "Lemmas.PanicClasses.citingReasons is the work of tools/gens/_c08_review.py (Python), that the six assert sites carry such "
+        "a reason and that every cited fact holds is a Lean theorem",
         "the progress hypotheses of the loop theorems (an element parser consumes a token on success; the single-token lexer "
         "consumes a byte) are tied to the code by the reviewed list of combinator uses and by the C08.lex correspondence",
         "the supervised run sees only the inputs it generates; distributions are in the evidence",
